@@ -54,6 +54,15 @@ TEMPLATES = [
     ("cpp", "int f{n}(int x) {{ try {{ throw x; }} catch (int e) {{ return {c}; }} return 1; }}"),
     ("cpp", "class F{n} {{ public: F{n}() : a(b), b({c}) {{ }} int a; int b; void g() {{ }} }};"),
     ("cpp", "#include <cstring>\nstruct S{n} {{ virtual ~S{n}() {{ }} int x; }};\nvoid f{n}(S{n} *s) {{ std::memset(s, 0, sizeof(*s)); }}"),
+    # one access site carrying BOTH an unconditional bad value (reset path before the access) and a conditional one
+    # (a check after the access): the base-configuration error has a sibling "condition is redundant" warning
+    ("cpp", "#include <vector>\nint f{n}(std::vector<int> &v, bool reset) {{ if (reset) v.clear(); int r = v[{c}]; if (v.size() == {c}) {{ r++; }} return r; }}"),
+    ("cpp", "#include <vector>\nint f{n}(std::vector<int> &v, bool reset) {{ if (reset) v.clear(); int r = v.at({c}); if (v.size() == 1) {{ r++; }} return r; }}"),
+    ("cpp", "#include <vector>\nint f{n}(std::vector<int> &v, bool reset) {{ if (reset) v.clear(); int r = v.front() + v.back(); if (v.empty()) {{ r++; }} return r; }}"),
+    ("cpp", "#include <string>\nchar f{n}(std::string &s, bool reset) {{ if (reset) s.clear(); char ch = s[{c}]; if (s.size() == 1) {{ ch++; }} return ch; }}"),
+    ("c", "int f{n}(int *p, int reset) {{ if (reset) p = 0; int r = *p; if (p) {{ r += {c}; }} return r; }}"),
+    ("c", "int f{n}(int x, int reset) {{ if (reset) x = 0; int r = {c}00 / x; if (x == 0) {{ r++; }} return r; }}"),
+    ("c", "int f{n}(int i, int reset) {{ int a[{b}]; a[0] = 0; if (reset) i = {b}; int r = a[i]; if (i == {b}0) {{ r++; }} return r; }}"),
     ("cpp", "void f{n}(int x) {{ int shadow{n} = x; {{ int shadow{n} = {c}; (void)shadow{n}; }} (void)shadow{n}; }}"),
 ]
 
